@@ -1,4 +1,5 @@
 """C19 - a configuration that loads is safe to run; one that is invalid is rejected."""
+import e2e_engine as E2E
 import gen_glob as GG
 import gen_mapper as GM
 import gen_pipeline as GP
@@ -50,6 +51,9 @@ def gen_case(rnd):
             d = d or GM.defaults()
             d["summary"] = GM.summ(quantiles=rnd.choice(BOUNDARY_QS), max_age=rnd.choice([0, -10**9, 10**9]))
         elif k == 5:
+            if rnd.random() < 0.4:
+                d = d or GM.defaults()
+                d["ttl"] = rnd.choice([-10**9, 1, 2**61, -1])
             rules.append(GM.rule(b"bt.*", b"bt", ttl=rnd.choice([-10**9, 1, 2**61]), scale=rnd.choice([0.0, -1.0, float("nan"), float("inf"), 1e308]), help=b"bt"))
         elif k == 6:
             rules.append(GM.rule(b"bn.*", rnd.choice([b"$1", b"${1}_$2", b"$2", b"x$3"]), labels=[(b"ab", rnd.choice([b"$1$2", b"100%", b"$$", b"${9}"]))], help=b"bn"))
@@ -83,8 +87,17 @@ def monitor(rep, case, impl, model, payload):
 
 
 def run(rep, tier, seed, replay):
-    PC.run(rep, "C19", tier, seed, replay, gen_case, monitor, 500, 25000,
+    res = PC.run(rep, "C19", tier, seed, replay, gen_case, monitor, 500, 25000,
            "%(n)d configurations: 35%% invalid (17 classes: syntax, match, name, label key, enum, regex, legacy/new contradictions, unsorted/duplicate buckets, quantile outside [0,1], "
            "negative max_age) and 65%% valid or boundary (empty/Inf/NaN/denormal buckets, quantiles 0 and 1, odd errors, reserved label names le/quantile/__x, huge/negative ttl, "
            "scale 0/negative/NaN/Inf, out-of-range template references), each followed by a battery of lines of every type hitting every rule, reserved tags, unmapped names, a scrape, "
            "an expiry sweep and a second scrape; non-trivial = configuration that loaded; distinct by YAML text")
+    if not replay and res:
+        cases, impl, model = res
+        items = [(c[2][0].split()[1], i[0] == "L ok", (c[3] or {}).get("yaml", "")) for c, i in zip(cases, impl) if c[2] and c[2][0].startswith("L ")]
+        E2E.check_configs(rep, "C19", items, 120 if tier == "quick" else 3000)
+        live = [(c[2][0], [vf.unhex(o[2:]) for o in c[2] if o.startswith("I ")], (c[3] or {}).get("yaml", ""))
+                for c, i in zip(cases, impl) if c[2] and c[2][0].startswith("L ") and i[0] == "L ok"]
+        E2E.run_liveness(rep, "C19", live, 40 if tier == "quick" else 1500, seed)
+        rep.cov["rule"] += ("; plus, against the built binary: --check-config on %d of the configurations, and %d of the loadable ones run end to end (start, lines, scrape, reload "
+                            "of the same file by /-/reload or SIGHUP, scrape): the process must stay up and answer" % (rep.extra.get("check_config_runs", 0), rep.extra.get("e2e_liveness_runs", 0)))
